@@ -422,6 +422,10 @@ pub fn describe_config(c: &config::Encoder) -> String {
 pub enum FillMode {
     Int,
     Bytes,
+    /// like Int / Bytes, but every third read is short although input remains (pipe-style
+    /// source); only used by monitors whose oracle does not assume full non-final blocks
+    IntShort,
+    BytesShort,
 }
 
 #[derive(Clone, Debug)]
@@ -457,6 +461,9 @@ pub struct TestSource {
     /// k > 0: every k-th read (1-based) delivers only half of the requested block although
     /// more input is available (a pipe / socket style source)
     pub short_reads: usize,
+    /// (read index, milliseconds): the source blocks that long before delivering that read
+    /// (a real-time capture / network source that stalls)
+    pub stall: Option<(usize, u64)>,
 }
 
 impl TestSource {
@@ -473,6 +480,7 @@ impl TestSource {
             report: None,
             bytes_per_sample: None,
             short_reads: 0,
+            stall: None,
         }
     }
     pub fn with_faults(mut self, f: Vec<Fault>) -> Self {
@@ -506,6 +514,11 @@ impl Source for TestSource {
     fn read_samples<F: Fill>(&mut self, block_size: usize, dest: &mut F) -> Result<usize, SourceError> {
         let k = self.reads;
         self.reads += 1;
+        if let Some((at, ms)) = self.stall {
+            if at == k {
+                std::thread::sleep(std::time::Duration::from_millis(ms));
+            }
+        }
         for f in &self.faults {
             if let Fault::ErrAt(r) = f {
                 if *r == k {
@@ -516,7 +529,8 @@ impl Source for TestSource {
         let ch = self.audio.channels;
         let total = self.audio.frames();
         let mut n = block_size.min(total - self.pos);
-        if self.short_reads > 0 && (k + 1) % self.short_reads == 0 && n > 1 {
+        let short_reads = if matches!(self.mode, FillMode::IntShort | FillMode::BytesShort) && self.short_reads == 0 { 3 } else { self.short_reads };
+        if short_reads > 0 && (k + 1) % short_reads == 0 && n > 1 {
             n = (n / 2).max(1);
         }
         let slice = &self.audio.samples[self.pos * ch..(self.pos + n) * ch];
@@ -536,8 +550,8 @@ impl Source for TestSource {
         }
         let data: &[i32] = owned.as_deref().unwrap_or(slice);
         match self.mode {
-            FillMode::Int => dest.fill_interleaved(data)?,
-            FillMode::Bytes => {
+            FillMode::Int | FillMode::IntShort => dest.fill_interleaved(data)?,
+            FillMode::Bytes | FillMode::BytesShort => {
                 let b = self.bytes_per_sample.unwrap_or((self.audio.bps + 7) / 8);
                 // the byte slice handed over starts at every alignment 0..=3 in turn (a reader
                 // slicing into an I/O buffer gives no alignment guarantee)
